@@ -92,6 +92,13 @@ def iter {σ} (fa fb : σ → σ) : Nat → σ → σ
   | 1, s => fa s
   | k+2, s => iter fa fb (k+1) (fb (fa s))
 
+/-- what the end of a chord does to each collected note: start at the chord's tick, the chord's
+    length × gate (unless the gate is 0), the chord's velocity when given -/
+def chordFix (ht ln qq : Int) (v : Option Int) (e : NoteEv) : NoteEv :=
+  let e := { e with time := ht }
+  let e := if qq ≠ 0 then { e with dur := tdiv (ln * qq) 100 } else e
+  match v with | some vv => (if vv < 0 then e else { e with vel := vv }) | none => e
+
 def hats : Option LenExpr → Int
   | none => 0
   | some L => L.parts.length
@@ -104,7 +111,7 @@ def countElem : Cmd → Int
   | .noteN _ len _ _ _ => 1 + hats len
   | .rest len _ => 1 + hats len
   | .div _ len => 1 + hats len
-  | .loop n a hasBrk b => (n : Int) * countElems a + (if hasBrk then ((n : Int) - 1) * countElems b else (n : Int) * countElems b)
+  | .loop n a _ b => if n = 0 then 0 else (n : Int) * countElems a + ((n : Int) - 1) * countElems b
   | _ => 0
 def countElems : List Cmd → Int
   | [] => 0
@@ -159,11 +166,7 @@ def sem : Cmd → St → St
       let t1 := s1.t
       let qq := match q with | none => t1.q | some x => if x < 0 then t1.q else x
       let ln := lenOpt s1.tb t1.l len
-      let fix (e : NoteEv) : NoteEv :=
-        let e := { e with time := ht }
-        let e := if qq ≠ 0 then { e with dur := tdiv (ln * qq) 100 } else e
-        match v with | some vv => (if vv < 0 then e else { e with vel := vv }) | none => e
-      { (s1.setT { t1 with ev := t1.ev ++ (evs.reverse.map fix), tp := ht + ln }) with harm := none }
+      { (s1.setT { t1 with ev := t1.ev ++ (evs.reverse.map (chordFix ht ln qq v)), tp := ht + ln }) with harm := none }
   | .track n, s => { s with tr := growTracks s.tb n (n + 1) s.tr, cur := n }
   | .channel n, s => let t := s.t; s.setT { t with ch := clamp 1 n 16 - 1 }
   | .voice _, s => s
